@@ -271,7 +271,30 @@ func racePass(r *chk.Run, jobs []Job) {
 			Kind:   "C05-race-detector",
 			Replay: map[string]interface{}{"report": clipS(rep, 4000)}})
 	}
+	// two Streamers at a time in one process: state the library keeps outside
+	// the Streamer (package-level variables, pools) is touched by both
+	var pj []nativeJob
+	for k := 0; k < len(nj) && len(pj) < 60; k += 2 {
+		pj = append(pj, nj[k])
+	}
+	pres, pstderr, perr := runNativeMode(bin, "pair", []string{"GORACE=halt_on_error=0 history_size=2"}, pj)
+	if len(pres) < len(pj) {
+		chk.Fatalf("race pass (two Streamers at a time) failed: %v (%d of %d results) %s", perr, len(pres), len(pj), clipS(pstderr, 600))
+	}
+	for _, rep := range strings.Split(pstderr, "WARNING: DATA RACE")[1:] {
+		nrep++
+		a, b := raceStacks(rep)
+		ka, kb := e1.SiteClass(a), e1.SiteClass(b)
+		if ka > kb {
+			ka, kb = kb, ka
+		}
+		r.Report(chk.Violation{Key: "race:" + ka + "~" + kb,
+			What:   fmt.Sprintf("Go race detector (two Streamers at a time in one process, uninstrumented library): [%s] vs [%s]", clipS(a, 300), clipS(b, 300)),
+			Kind:   "C05-race-detector",
+			Replay: map[string]interface{}{"report": clipS(rep, 4000)}})
+	}
 	r.Set("race_detector_runs", len(nj)*runs)
+	r.Set("race_detector_pair_runs", len(pj)/2*runs)
 	r.Set("race_detector_reports", nrep)
 	r.Assume("companion: the Go race detector on free-running executions samples schedules; it confirms on concrete memory what the explorer's vector clocks decide at connection granularity and sees accesses the syntactic rewrite cannot")
 }
